@@ -283,7 +283,9 @@ func TestC04_CallPlans(t *testing.T) {
 	}
 	addr := srv.Address()
 	ev.Check(t, c04, func(rt *rapid.T) {
-		defer drawSched(rt).install()() // seeded yields at the library's schedule points
+		// seeded yields at the library's schedule points, half of the active plans concentrated on the Receive loops
+		// (mpx and rpc: polled empty -> wait) and the send loop's poll -> wait
+		defer drawSchedFocus(rt, 1<<1|1<<2|1<<17|1<<18).install()()
 		o := rpc.Default()
 		o.ClientDialTimeout = 30 * time.Second // the 2 s default is exceeded on an overloaded machine; dial behaviour is C19's subject
 		o.ClientMaxConns = rapid.IntRange(1, 3).Draw(rt, "maxconns")
@@ -315,7 +317,17 @@ func TestC04_CallPlans(t *testing.T) {
 			c.ResultSize = []int{0, 1, 16, 100, 5000}[rapid.IntRange(0, 4).Draw(rt, "ressize")]
 			c.Up = rapid.IntRange(0, 8).Draw(rt, "up")
 			c.Down = rapid.IntRange(0, 8).Draw(rt, "down")
-			c.MsgSize = []int{1, 16, 300}[rapid.IntRange(0, 2).Draw(rt, "msgsize")]
+			// mostly small; sometimes larger than the receive queue's first block, so that a message is written
+			// into a further block while the reader is between its poll and its wait
+			c.MsgSize = []int{1, 16, 300, 300, 300, 5000, 70000, 200000}[rapid.IntRange(0, 7).Draw(rt, "msgsize")]
+			if c.MsgSize > 5000 {
+				if c.Up > 4 {
+					c.Up = 4
+				}
+				if c.Down > 4 {
+					c.Down = 4
+				}
+			}
 			c.Panic = rapid.IntRange(0, 11).Draw(rt, "panic") == 0
 			c.Early = rapid.IntRange(0, 5).Draw(rt, "early") == 0
 			if c.Panic {
